@@ -2,6 +2,7 @@ package checks
 
 import (
 	"fmt"
+	"go/token"
 	"go/types"
 	"sort"
 	"strconv"
@@ -387,6 +388,81 @@ func runC06(c *Ctx) {
 		R.Add("S.addressing", shortFn(fn), c.P.RelPos(fn.Pos()), st, d)
 	}
 	R.Require("S.addressing", 2, "")
+	// ---- 3c. who is answered: only messages whose handler says so, and every complete message
+	R.Rules["S.answered"] = "the reply path draws no serial and writes nothing unless the handler's HasReply() is true (responses get no reply), and in the writer every complete message (hasComplete() true) reaches the reply function without any further condition"
+	if dr := c.P.Method("service", "connection", "defaultReplyEvent"); dr != nil {
+		ok, d := false, "defaultReplyEvent does not test HasReply()"
+		var guard *ssa.BasicBlock // successor on which HasReply() is true
+		for _, b := range dr.Blocks {
+			iff, isIf := b.Instrs[len(b.Instrs)-1].(*ssa.If)
+			if !isIf {
+				continue
+			}
+			cond := iff.Cond
+			neg := false
+			for {
+				u, isU := cond.(*ssa.UnOp)
+				if !isU || u.Op != token.NOT {
+					break
+				}
+				cond, neg = u.X, !neg
+			}
+			if n, _ := callMethodName(cond); n == "HasReply" {
+				guard = b.Succs[0]
+				if neg {
+					guard = b.Succs[1]
+				}
+			}
+		}
+		if guard != nil {
+			ok, d = true, ""
+			for _, b := range dr.Blocks {
+				for _, ins := range b.Instrs {
+					call, isC := ins.(*ssa.Call)
+					if !isC {
+						continue
+					}
+					n, _ := callMethodName(call)
+					if (n == "curSeq" || isConnWrite(ins)) && !(guard.Dominates(b) && len(guard.Preds) == 1) {
+						ok, d = false, fmt.Sprintf("%s at %s is reached without HasReply() being true: messages that are themselves responses are answered", n, c.P.RelPos(ins.Pos()))
+					}
+				}
+			}
+		}
+		st := report.Discharged
+		if !ok {
+			st = report.Violated
+		}
+		R.Add("S.answered", shortFn(dr)+" / no serial and no write unless HasReply()", c.P.RelPos(dr.Pos()), st, d)
+	}
+	if wf := c.P.Method("service", "connection", "write"); wf != nil {
+		ok, d := false, "the writer never calls the reply function"
+		for _, b := range wf.Blocks {
+			for _, ins := range b.Instrs {
+				call, isC := ins.(*ssa.Call)
+				if !isC || call.Call.StaticCallee() == nil || call.Call.StaticCallee().Name() != "defaultReplyEvent" {
+					continue
+				}
+				ok, d = false, "a complete message does not reach the reply function unconditionally (the `complete or filtering off` test is not an OR whose first operand is hasComplete())"
+				// some predecessor tests hasComplete() and jumps here on true
+				for _, p := range b.Preds {
+					iff, isIf := p.Instrs[len(p.Instrs)-1].(*ssa.If)
+					if !isIf {
+						continue
+					}
+					if n, _ := callMethodName(iff.Cond); n == "hasComplete" && p.Succs[0] == b {
+						ok, d = true, ""
+					}
+				}
+			}
+		}
+		st := report.Discharged
+		if !ok {
+			st = report.Violated
+		}
+		R.Add("S.answered", shortFn(wf)+" / every complete message reaches the reply function", c.P.RelPos(wf.Pos()), st, d)
+	}
+	R.Require("S.answered", 2, "")
 	// ---- 4. single receive site of msgChan
 	nRecv, where := 0, ""
 	for _, fn := range c.RepoFuncs("service") {
